@@ -55,6 +55,7 @@ func observeFormat(o *obsWriter, pfx, src string, lineMode bool) {
 		}
 		o.kv(pfx+"r", b2s(ok))
 	}
+	crossProcess(o, pfx, src, lineMode, first) // formatfam3.go: every 400th case also in a fresh process
 	// history independence: every 40th case, the same source after a reset of the interning table
 	// (all other cases run with the table as left by the cases before them)
 	formatCount++
@@ -502,6 +503,7 @@ func formatGen(tier string, r *rng, emit func(string)) {
 	for i := 0; i < n; i++ {
 		src(mutate(r, genProgram(r, 1+r.intn(3))))
 	}
+	formatGapFamilies(tier, r, emit) // formatfam2.go
 }
 
 // escapes whose value is 0 or >= 0x80, raw invalid UTF-8, unknown and octal-looking escapes: also used by the
